@@ -48,6 +48,7 @@ class Cfg:
         self.inline_depth = 2
         self.pad_options = True          # FixedStringPad* options
         self.u64_prefix = True
+        self.unique_inline = True
         self.__dict__.update(kw)
 
 
@@ -116,6 +117,7 @@ def gen_simple_field(rng, cfg, name, metas, allow_repeat=True, in_inline=False):
 
 def gen_program(rng, cfg=None):
     cfg = cfg or Cfg()
+    _inline_counter[0] = 0
     prog = {"options": gen_options(rng, cfg), "metas": [], "packets": []}
     metas = []
     if cfg.allow_meta and rng.random() < 0.4:
@@ -171,7 +173,7 @@ def gen_program(rng, cfg=None):
                 fields.append({"kind": "match", "name": mname, "key": kname, "pairs": pairs})
             elif cfg.allow_ref and later and r < 0.30:
                 t = rng.choice(later)
-                named = rng.random() < 0.6
+                named = rng.random() < 0.6 or any(x["name"] == t for x in fields) or t in fnames
                 rep = cfg.allow_repeat and rng.random() < 0.3
                 if cfg.allow_length and i == 0 and not used_len and not rep and rng.random() < 0.3:
                     used_len = True
@@ -190,8 +192,25 @@ def gen_program(rng, cfg=None):
                 if cfg.allow_tag and rng.random() < 0.1:
                     f["tag"] = rng.randint(1, 999)
                 fields.append(f)
+        _dedupe(fields)
         prog["packets"].append({"name": pn, "root": i == 0, "fields": fields})
     return prog
+
+
+def _dedupe(fields):
+    """Field names must be distinct within a packet (an unnamed reference is called after its type)."""
+    seen = set()
+    for f in fields:
+        nm = f["meta"] if (f["kind"] == "metaref" and not f["named"]) else f["name"]
+        if nm in seen:
+            k = 2
+            while "%s%d" % (f["name"], k) in seen:
+                k += 1
+            f["name"] = "%s%d" % (f["name"], k)
+            if f["kind"] in ("metaref", "ref"):
+                f["named"] = True
+            nm = f["name"]
+        seen.add(nm)
 
 
 def _key(ktype, v):
@@ -200,15 +219,21 @@ def _key(ktype, v):
     return str(v)
 
 
+_inline_counter = [0]
+
+
 def gen_inline(rng, cfg, name, depth):
     nf = rng.randint(1, 3)
     fields = []
     for nm in _names(rng, ["Px", "Sz", "Id", "Note", "Kind", "Sub"], nf):
         if depth > 1 and rng.random() < 0.2:
-            fields.append(gen_inline(rng, cfg, nm + "Grp", depth - 1))
+            fields.append(gen_inline(rng, cfg, nm, depth - 1))
         else:
             fields.append(gen_simple_field(rng, cfg, nm, [], in_inline=True))
-    return {"kind": "inline", "name": name + "Grp", "fields": fields, "repeat": cfg.allow_repeat and rng.random() < 0.5}
+    # inline object names are type names in every target: keep them unique per program
+    _inline_counter[0] += 1
+    uniq = name + "Grp" + (str(_inline_counter[0]) if cfg.unique_inline else "")
+    return {"kind": "inline", "name": uniq, "fields": fields, "repeat": cfg.allow_repeat and rng.random() < 0.5}
 
 
 # ----------------------------------------------------------------------------- rendering
